@@ -151,19 +151,38 @@ theorem klae_opt_unbounded (inp : ErrInput) (a : Asg) (h : BaseWF inp.fi.base) (
 
 /-! ## objective consistency -/
 
-/-- model of `kLeastAbsErrors.get_objective_value`: `sum(edge_errors.values())`, the *unscaled* sum
-of the error columns as returned by `get_solution()` -/
-def reportedObjective (inp : ErrInput) (a : Asg) : Rat := (inp.basicEdges.map fun e => a (eeVar e)).sum
+/-- **the reported objective is the solver's objective, for every assignment** -/
+theorem objective_consistent (inp : ErrInput) (a : Asg) :
+    reportedObjective inp a = evalTerms a (klaeLP inp).obj := by
+  rw [klaeLP_obj]; unfold reportedObjective
+  apply sum_map_congr; intro e _; grind
 
-theorem objective_consistent_iff (inp : ErrInput) (a : Asg) (hsat : Sat a (klaeLP inp))
+/-- the objective clause of `is_valid_solution(tolerance)`:
+`abs(get_objective_value() - solver.get_objective_value()) > tolerance * original_k` → reject -/
+def objectiveCheckPasses (inp : ErrInput) (a : Asg) (tol : Rat) (originalK : Nat) : Prop :=
+  ¬ ((reportedObjective inp a - evalTerms a (klaeLP inp).obj).abs > tol * (originalK : Rat))
+
+theorem objective_check_passes (inp : ErrInput) (a : Asg) (tol : Rat) (htol : 0 ≤ tol) (originalK : Nat) :
+    objectiveCheckPasses inp a tol originalK := by
+  unfold objectiveCheckPasses
+  rw [objective_consistent]
+  have h0 : (evalTerms a (klaeLP inp).obj - evalTerms a (klaeLP inp).obj).abs = 0 := by
+    unfold Rat.abs; split <;> grind
+  rw [h0]
+  have : 0 ≤ tol * (originalK : Rat) := Rat.mul_nonneg htol Rat.natCast_nonneg
+  grind
+
+/-- why the fix was needed: the unscaled sum agrees with the solver's objective only when every
+non-ignored edge has scale 1 or a zero error column (scales ≤ 1) -/
+theorem unscaledErrorSum_eq_objective_iff (inp : ErrInput) (a : Asg) (hsat : Sat a (klaeLP inp))
     (hscale : ∀ e ∈ inp.basicEdges, inp.scale e ≤ 1) :
-    reportedObjective inp a = evalTerms a (klaeLP inp).obj ↔
+    unscaledErrorSum inp a = evalTerms a (klaeLP inp).obj ↔
       ∀ e ∈ inp.basicEdges, inp.scale e = 1 ∨ a (eeVar e) = 0 := by
   obtain ⟨_, _, heec, _, _⟩ := klae_sat_parts inp a hsat
   have hee0 : ∀ e ∈ inp.basicEdges, 0 ≤ a (eeVar e) := fun e he => (heec e he).1
-  have hdiff : reportedObjective inp a - evalTerms a (klaeLP inp).obj
+  have hdiff : unscaledErrorSum inp a - evalTerms a (klaeLP inp).obj
       = (inp.basicEdges.map fun e => (1 - inp.scale e) * a (eeVar e)).sum := by
-    rw [klaeLP_obj]; unfold reportedObjective
+    rw [klaeLP_obj]; unfold unscaledErrorSum
     rw [← sum_map_sub]
     apply sum_map_congr; intro e _; grind
   have hnn : ∀ e ∈ inp.basicEdges, 0 ≤ (1 - inp.scale e) * a (eeVar e) := by
